@@ -34,7 +34,7 @@ theorem mainStep_wkIds {ids : List τ} {k : Nat} {w w' : Wk τ} {p : MainP} (h :
   | collect =>
     simp only [hph] at hm
     cases p with
-    | collect errs garbage =>
+    | collect errs garbage intr sf0 =>
       simp only at hm
       have hmsgs : ∀ e ∈ ([WMsg.ignored] ++ errs.map (fun (e : String × Bool) => WMsg.ev (Ctl.Event.collectreport (τ := τ) k e.1 e.2)) ++
             [WMsg.ev (Ctl.Event.collectionfinish k w.ids)]).filterMap (evOf k), isCf ids e := by
